@@ -56,6 +56,7 @@ type watchRun struct {
 	alive    bool
 	delivered int
 	resumeBad []string
+	staleDeletes bool
 }
 
 var labSets = []Map{nil, {{1, 1}}, {{1, 2}}}
@@ -115,6 +116,10 @@ func applyStep(srv *fakeapi.Server, s wstep, errs *int) {
 func runWatch(c *Ctx, r *watchRun) {
 	r.deadlock = sched.Bubble(c.T, func() {
 		srv := fakeapi.New()
+		srv.StaleDeleteFrames = r.staleDeletes
+		if r.staleDeletes {
+			srv.OpaqueVersions = false // the list's version and the object's are to be the same string
+		}
 		errs := 0
 		srv.WatchBehave = func(n int, rv string) string {
 			if errs > 0 {
@@ -182,6 +187,12 @@ func runWatch(c *Ctx, r *watchRun) {
 		// a reconnect resumes after the last event received: never before an
 		// event a subscriber had already been handed when Watch() was called
 		for _, w := range ws {
+			if r.staleDeletes {
+				// a DELETED frame that carries an old version moves the resume point
+				// back to it: what follows is sent again, which is harmless, and
+				// "the last event received" is that frame
+				break
+			}
 			var rv int
 			fmt.Sscan(w.RV, &rv)
 			if got := m.receivedBefore(w.Seq); got > rv {
@@ -264,7 +275,7 @@ func runC04(c *Ctx) {
 		for _, w := range r.watches {
 			var rv int
 			fmt.Sscan(w.RV, &rv)
-			if rv < r.listVer && w.N > 1 && r.filt == nil {
+			if rv < r.listVer && w.N > 1 && r.filt == nil && !r.staleDeletes {
 				c.Violation("", fmt.Sprintf("watch %d resumed at version %d, before the list version %d", w.N, rv, r.listVer), replay)
 			}
 			_ = maxDelivered
@@ -310,6 +321,22 @@ func runC04(c *Ctx) {
 				c.Sample(map[string]interface{}{"scenario": what, "steps": stepsEnc(steps), "watch_resource_versions": fmt.Sprint(r.watches)})
 			}
 		}
+	}
+	// DELETED frames that carry the object as it was last stored, its old
+	// resourceVersion included: the newest object of the list (whose version is
+	// the version the first watch starts from) deleted first; the object of the
+	// last event received before a reconnect deleted while the stream is down;
+	// and the base history as it is
+	for vi, steps := range [][]wstep{
+		append([]wstep{{1, 1, 3, 0, 0}}, base[:len(base)-1]...), // (the last step of the base history would create the object again)
+		append(append(append([]wstep{}, base[:3]...), wstep{Kind: 7}, wstep{Kind: 2}, wstep{Kind: 7}, wstep{1, 1, 1, 0, 0}), base[3:]...),
+		append(append(append([]wstep{}, base[:5]...), wstep{Kind: 7}, wstep{Kind: 2}, wstep{Kind: 7}, wstep{1, 2, 1, 0, 0}), base[5:]...),
+		base,
+	} {
+		r := &watchRun{seed: c.Seed + int64(runs), level: []int{0, 3, 1}[runs%3], pre: pre, steps: steps, staleDeletes: true}
+		c.Now(fmt.Sprintf("watch history %d with DELETED frames at the object's last stored version: %v", vi, steps))
+		runWatch(c, r)
+		eval(r, fmt.Sprintf("DELETED frames carry the last stored version, history %d", vi))
 	}
 	// random histories with several faults
 	n := 40
